@@ -6,7 +6,7 @@ import ast
 from .. import astq, codec, reference, smf, wire
 from ..absint import AbsRaise, ADict, AList, AObj, Opaque, SeqVar, log_event
 from ..bits import AV, Sym
-from ..domains import check_domain
+from ..domains import check_domain, looks_undecided, semantic_domain
 from ..fold import FuncRef, UNKNOWN
 from ..intset import IntSet, Undecidable
 from ..model import AnalysisError, unparse
@@ -61,43 +61,42 @@ def r09_registry(ctx):
     extra = set(reg) - set(reference.META_SPECS)
     ctx.require(not extra, 'R08.4', 'metaspec.extra', w, f'spec classes not in the SMF table: {sorted(extra)}')
     ctx.floor('R09-specs', n, 17)
-    # the registration itself, abstractly interpreted: running _add_builtin_meta_specs() on empty registries must produce
-    # exactly the registry the other rules assume (wire.meta_registry: one spec object per MetaSpec_* class, reachable under
-    # its type byte and its name in _META_SPECS and under its name in _META_SPEC_BY_TYPE, with type and settable_attributes)
-    from ..absint import AbsInt
-    ai = AbsInt(ctx.f)
-    specs, bytype = ADict({}), ADict({})
-    ai.global_overrides[(META, '_META_SPECS')] = specs
-    ai.global_overrides[(META, '_META_SPEC_BY_TYPE')] = bytype
-    ab = ctx.fn(ctx.p.func(META, '_add_builtin_meta_specs'))
+    # the registration itself: the module body of meta.py is run abstractly (whatever fills the registries - a function scanning
+    # globals(), decorators, a loop over a list of classes) and what is left in _META_SPECS / _META_SPEC_BY_TYPE must be exactly
+    # the registry the other rules assume (wire.meta_registry: one spec object per MetaSpec_* class, reachable under its type
+    # byte and its name in _META_SPECS and under its name in _META_SPEC_BY_TYPE, with type and settable_attributes)
     ams = ctx.fn(ctx.p.func(META, 'add_meta_spec'))
-    outs = ai.explore(lambda: ai.call_function(ab, [], {}))
-    wa = ctx.where(ab)
-    ctx.require(len(outs) == 1 and outs[0].kind == 'return', 'R09.5', '_add_builtin_meta_specs()', wa, f'registration outcomes: {outs}',
-                construct=f'{ab.qname}::outcomes')
+    wa = ctx.where(ams)
+    ns = ctx.f.module_namespace(m)
+    specs = ns.get('_META_SPECS') if ns is not None else None
+    bytype = ns.get('_META_SPEC_BY_TYPE') if ns is not None else None
+    if isinstance(specs, ADict):
+        specs = specs.d
+    if isinstance(bytype, ADict):
+        bytype = bytype.d
+    if not isinstance(specs, dict) or not isinstance(bytype, dict):
+        ctx.fail('R09.5', 'registry', wa, f'running the module body of {m.relpath} does not yield the registries '
+                 f'(_META_SPECS: {type(specs).__name__}, _META_SPEC_BY_TYPE: {type(bytype).__name__})', construct=f'{ams.qname}::registries')
+        return
     want_names = set(reg)
-    ctx.require(set(bytype.d) == want_names, 'R09.5', 'registry.names', wa,
-                f'_META_SPEC_BY_TYPE holds {sorted(map(str, bytype.d))}; the MetaSpec_* classes are {sorted(want_names)}', construct=f'{ab.qname}::names')
+    ctx.require(set(bytype) == want_names, 'R09.5', 'registry.names', wa,
+                f'_META_SPEC_BY_TYPE holds {sorted(map(str, bytype))}; the MetaSpec_* classes are {sorted(want_names)}', construct=f'{ams.qname}::names')
     for name, c in sorted(reg.items()):
-        sp_ = bytype.d.get(name)
+        sp_ = bytype.get(name)
         tb = ctx.f.try_eval(ctx.p.class_attr(c, 'type_byte'), {}, m) if ctx.p.class_attr(c, 'type_byte') is not None else None
         attrs_ = ctx.f.try_eval(ctx.p.class_attr(c, 'attributes'), {}, m) if ctx.p.class_attr(c, 'attributes') is not None else []
-        ok = isinstance(sp_, AObj) and sp_.cls == c and sp_.attrs.get('type') == name and specs.d.get(name) is sp_ and specs.d.get(tb) is sp_
+        ok = isinstance(sp_, AObj) and sp_.cls == c and sp_.attrs.get('type') == name and specs.get(name) is sp_ and specs.get(tb) is sp_
         sa = sp_.attrs.get('settable_attributes') if isinstance(sp_, AObj) else None
         try:
             sa_ok = set(sa) == set(attrs_ or []) | {'time'}
         except TypeError:
             sa_ok = False
-        ctx.require(ok and sa_ok, 'R09.5', f'registry({name})', ctx.where(ams),
-                    f'after registration: by type {sp_!r}, by name {specs.d.get(name)!r}, by type byte {tb!r} {specs.d.get(tb)!r}, settable {sa!r}; '
+        ctx.require(ok and sa_ok, 'R09.5', f'registry({name})', wa,
+                    f'after import: by type {sp_!r}, by name {specs.get(name)!r}, by type byte {tb!r} {specs.get(tb)!r}, settable {sa!r}; '
                     f'expected one MetaSpec_{name} object under all three keys with type {name!r} and settable attributes {sorted(set(attrs_ or []) | {"time"})}',
                     construct=f'{ams.qname}::registration')
-    called = [s_ for s_ in m.tree.body if isinstance(s_, ast.Expr) and isinstance(s_.value, ast.Call)
-              and isinstance(ctx.f.try_eval(s_.value.func, {}, m), FuncRef) and ctx.f.try_eval(s_.value.func, {}, m).info.qname == ab.qname]
-    ctx.require(len(called) >= 1, 'R09.5', '_add_builtin_meta_specs() at import', wa, 'the registration function is never called at import',
-                construct=f'{ab.qname}::called')
-    for q in ai.inlined:
-        ctx.functions.add(q)
+    stray = [k for k in specs if k not in want_names and k not in {ctx.f.try_eval(ctx.p.class_attr(c, 'type_byte'), {}, m) for c in reg.values() if ctx.p.class_attr(c, 'type_byte') is not None}]
+    ctx.require(not stray, 'R09.5', 'registry.stray', wa, f'_META_SPECS has entries that belong to no MetaSpec_* class: {stray}', construct=f'{ams.qname}::stray')
 
 
 def _check_fn(ctx, c):
@@ -128,10 +127,17 @@ def r09_3(ctx):
             if dom is not None and (name, attr) != ('time_signature', 'denominator'):
                 try:
                     r = check_domain(ctx.p, ctx.f, fn, 'value', {'name': attr})
-                except Undecidable as e:
-                    ctx.fail('R09.3', f'domain({inst})', ctx.where(fn), f'cannot derive the accepted domain: {e}',
-                             construct=f'{fn.qname}::domain({attr})')
-                    continue
+                except Undecidable:
+                    r = None
+                if looks_undecided(r):
+                    # the tests are not in the method body itself (a field helper object, a table...): decide on executions
+                    try:
+                        r = semantic_domain(ctx, lambda ai_, v, c=c, fn=fn, attr=attr: ai_.call_function(fn, [AObj(c, {}), attr, v], {}),
+                                            extra=(dom[0], dom[1]))
+                    except (Undecidable, AnalysisError) as e:
+                        ctx.fail('R09.3', f'domain({inst})', ctx.where(fn), f'cannot derive the accepted domain: {e}',
+                                 construct=f'{fn.qname}::domain({attr})')
+                        continue
                 ctx.paths += r.paths
                 ctx.require(r.accepted == IntSet.range(*dom), 'R09.3', f'domain({inst})', ctx.where(fn),
                             f'check accepts {r.accepted}, documented {dom[0]}..{dom[1]}', construct=f'{fn.qname}::domain({attr})')
